@@ -28,7 +28,8 @@ ASSUMPTIONS = [
     "symbolic parameters are compared by evaluating both sides with sympy substitution of random values by symbol name",
     "keyword options that do not change the transformation (mesh of an Interferometer, tolerance values) are not compared",
 ]
-REQUIRED_MONITORS = ["roundtrip:blackbird", "roundtrip:xir", "roundtrip:file", "roundtrip:tdm", "structure:compared", "execution:compared"]
+REQUIRED_MONITORS = ["roundtrip:blackbird", "roundtrip:xir", "roundtrip:file", "roundtrip:tdm", "structure:compared", "execution:compared",
+                     "codegen:generated", "codegen:compared"]
 
 ONE = ["Dgate", "Xgate", "Zgate", "Sgate", "Rgate", "Pgate", "Vgate", "Kgate", "Fouriergate"]
 TWO = ["BSgate", "MZgate", "S2gate", "CXgate", "CZgate", "CKgate"]
@@ -453,6 +454,130 @@ def tdm_cases(env, rep, rng, ncases):
                 [(type(c.op).__name__, [r.ind for r in c.reg], [repr(x) for x in c.op.p]) for c in Q.rolled_circuit]))
 
 
+# ---------------------------------------------------------------------------------------------------------------------
+# code generation: sf.io.generate_code(prog) -> Python source -> exec -> program
+# ---------------------------------------------------------------------------------------------------------------------
+
+PI12 = np.pi / 12
+
+
+def gen_codegen_case(rng):
+    """Programs of the domain generate_code documents: numeric scalar parameters only (many of them at, one rounding step
+    below / above, or near multiples of pi/12, which the generator writes as fractions of np.pi), dagger forms, measurements
+    with post-selection and dark counts."""
+    n = int(rng.integers(1, 5))
+
+    def val():
+        r = rng.random()
+        k = int(rng.integers(-14, 15))
+        if r < 0.25:
+            return float(k * PI12)
+        if r < 0.4:
+            return float(np.nextafter(k * PI12, -np.inf if rng.random() < 0.5 else np.inf))
+        if r < 0.5:
+            return float(k * PI12 * (1 + rng.choice([-1, 1]) * 10.0 ** -rng.integers(7, 12)))
+        if r < 0.6:
+            return float(k * PI12 + rng.choice([-1, 1]) * 3e-4)
+        return float(np.round(rng.uniform(-1.5, 1.5), int(rng.integers(2, 9))))
+
+    cmds = []
+    for _ in range(int(rng.integers(2, 8))):
+        r = rng.random()
+        if r < 0.45:
+            nm = str(rng.choice(["Sgate", "Rgate", "Dgate", "Xgate", "Zgate", "Pgate", "Kgate", "Vgate"]))
+            m = [int(rng.integers(n))]
+        elif r < 0.7 and n >= 2:
+            nm = str(rng.choice(["BSgate", "S2gate", "CXgate", "CZgate", "CKgate", "MZgate"]))
+            m = [int(x) for x in rng.choice(n, 2, replace=False)]
+        elif r < 0.85:
+            nm = str(rng.choice(["Coherent", "Squeezed", "Thermal", "LossChannel", "Vacuum"]))
+            m = [int(rng.integers(n))]
+        else:
+            nm, m = "Rgate", [int(rng.integers(n))]
+        k = NARGS.get(nm, {"Kgate": 1, "Vgate": 1, "CKgate": 1}.get(nm, 0))
+        p = [val() for _ in range(k)]
+        if nm in ("Thermal", "LossChannel"):
+            p = [float(np.round(rng.uniform(0.1, 0.9), 6))]
+        if nm in ("Coherent", "Dgate"):
+            p[0] = abs(p[0])
+        cmds.append({"op": nm, "p": p, "m": m, "dag": bool(nm.endswith("gate") and nm != "Fouriergate" and rng.random() < 0.3)})
+    kind = str(rng.choice(["none", "homodyne", "homodyne-select", "fock", "fock-select", "fock-dark", "heterodyne-select"]))
+    m = int(rng.integers(n))
+    if kind.startswith("homodyne"):
+        c = {"op": "MeasureHomodyne", "p": [val()], "m": [m], "dag": False}
+        if kind.endswith("select"):
+            c["kw"] = {"select": float(np.round(rng.uniform(-1, 1), 5))}
+        cmds.append(c)
+    elif kind.startswith("fock"):
+        k = int(rng.integers(1, n + 1))
+        modes = [int(x) for x in rng.choice(n, k, replace=False)]
+        c = {"op": "MeasureFock", "p": [], "m": modes, "dag": False}
+        if kind == "fock-select":
+            c["kw"] = {"select": [int(x) for x in rng.integers(0, 3, k)]}
+        elif kind == "fock-dark":
+            c["kw"] = {"dark_counts": [float(np.round(x, 4)) for x in rng.uniform(0.1, 0.9, k)]}
+        cmds.append(c)
+    elif kind == "heterodyne-select":
+        cmds.append({"op": "MeasureHeterodyne", "p": [], "m": [m], "dag": False,
+                     "kw": {"select": enc(complex(np.round(rng.normal(0, 0.5), 4), np.round(rng.normal(0, 0.5), 4)))}})
+    return {"codegen": True, "n": n, "cmds": cmds, "with_engine": bool(rng.random() < 0.3)}
+
+
+def run_codegen_case(case, rep, env):
+    sf, ops = env["sf"], env["ops"]
+    V = lambda kind, what: rep.violation("generate_code", kind, what, case)
+    P = build(env, case)
+    feats = any(c.get("dag") or c.get("kw") for c in case["cmds"])
+    rep.case(["codegen", rnd(case["cmds"], 9)], len(case["cmds"]) >= 2 and feats)
+    eng = sf.Engine("gaussian") if case["with_engine"] else None
+    rep.monitor("codegen:generated")
+    try:
+        code = sf.io.generate_code(P, eng)
+    except Exception as e:
+        V("exception:" + type(e).__name__, "generate_code raised %s: %s" % (type(e).__name__, str(e)[:120]))
+        return
+    # (the generated text uses np.pi without importing numpy, exactly as the documented example does: numpy is provided)
+    ns = {"np": np}
+    body = code.replace("\nresults = eng.run(prog)", "\n")
+    try:
+        exec(compile(body, "<generated>", "exec"), ns)
+        Q = ns["prog"]
+    except Exception as e:
+        V("generated-code-does-not-run:" + type(e).__name__, "the generated code raised %s: %s\n%s" % (type(e).__name__, str(e)[:100], code[-400:]))
+        return
+    rep.monitor("codegen:compared")
+    if Q.num_subsystems != P.num_subsystems:
+        V("register-size", "Program(%d) generated for a program with %d subsystems" % (Q.num_subsystems, P.num_subsystems))
+        return
+    if len(Q.circuit) != len(P.circuit):
+        V("length", "%d commands generated for %d" % (len(Q.circuit), len(P.circuit)))
+        return
+    for i, (a, b) in enumerate(zip(P.circuit, Q.circuit)):
+        an = type(a.op).__name__
+        if an != type(b.op).__name__ or [r.ind for r in a.reg] != [r.ind for r in b.reg]:
+            V("operation", "command %d: %s on %s became %s on %s" % (i, an, [r.ind for r in a.reg], type(b.op).__name__, [r.ind for r in b.reg]))
+            return
+        if bool(getattr(a.op, "dagger", False)) != bool(getattr(b.op, "dagger", False)):
+            V("dagger-lost", "command %d %s: dagger %s became %s" % (i, an, getattr(a.op, "dagger", False), getattr(b.op, "dagger", False)))
+            return
+        for k, (x, y) in enumerate(zip(a.op.p, b.op.p)):
+            x, y = complex(x), complex(y)
+            near = abs(x.real / PI12 - round(x.real / PI12)) < 1e-4
+            # values that np.isclose (rtol 1e-5, atol 1e-8) takes for a multiple of pi/12 are written as that multiple on
+            # purpose ("factor out pi"): up to 2.7e-6 of deliberate rounding; everything else is written with repr precision
+            if abs(x - y) > (5e-6 if near else 1e-12 * (1 + abs(x))):
+                kind = "parameter"
+                if near:
+                    kind = "parameter:near-multiple-of-pi/12"
+                V(kind, "command %d %s: parameter %d = %r was written so that it reads back as %r" % (i, an, k, x.real, y.real))
+                return
+        for attr in ("select", "dark_counts"):
+            x, y = getattr(a.op, attr, None), getattr(b.op, attr, None)
+            if (x is None) != (y is None) or (x is not None and not np.allclose(np.asarray(x, dtype=complex), np.asarray(y, dtype=complex), atol=1e-12)):
+                V("measurement-option-lost:" + attr, "command %d %s: %s = %r became %r" % (i, an, attr, x, y))
+                return
+
+
 def plan(tier, seed, scale=1.0):
     n = int((300 if tier == "quick" else 12000) * scale)
     return [{"n": n, "timeout": 6000} for _ in range(16)]
@@ -471,11 +596,19 @@ def run_shard(shard, rep):
         tdm_cases(env, rep, rng, 4 if shard.get("tier") == "quick" else 20)
     except Exception as e:
         rep.error("tdm", e)
+    for _ in range(max(10, shard["n"] // 5)):
+        case = gen_codegen_case(rng)
+        try:
+            run_codegen_case(case, rep, env)
+        except Exception as e:
+            rep.error("codegen", e)
 
 
 def replay(case, rep):
     env = load()
     if case.get("tdm"):
         tdm_cases(env, rep, np.random.default_rng(0), 4)
+    elif case.get("codegen"):
+        run_codegen_case(case, rep, env)
     else:
         run_case(case, rep, env)
